@@ -69,6 +69,12 @@ def templates(tier, seed):
         for loc in ("c", "tl", "b"):
             for n in (1, 2):
                 tds.append(dict(fam="content", kind=k, loc=loc, mode="default", off="sym", dxy="none", vert=False, lines=n, carrier="content"))
+    # the carrier has to wait for a later element (it is processed on a retry): same placement
+    for k in kinds:
+        for loc in ("tl", "r", "b:o", "c"):
+            for mode in ("default", "outside"):
+                for n in (1, 2):
+                    tds.append(dict(fam="held", kind=k, loc=loc, mode=mode, off="sym", dxy="dx+dy", vert=False, lines=n, carrier="attr", held=True))
     PRES = ["alignment-baseline=middle", "font-family=monospace", "font-size=3", "font-size-adjust=0.5", "font-stretch=condensed", "font-style=italic", "font-variant=small-caps",
             "font-weight=bold", "text-decoration=underline", "text-rendering=optimizeSpeed", "text-anchor=end", "textLength=20", "lengthAdjust=spacing", "word-spacing=2",
             "letter-spacing=1", "writing-mode=vertical-lr", "unicode-bidi=embed", "text-style=fill:blue"]
@@ -212,9 +218,13 @@ def build(td, wrong=False):
         lsp_sym = True
     n = td["lines"]
     words = ["one", "two", "three"][:n]
+    tail = ""
+    if td.get("held"):
+        extra += ' data-w="{{#zz~w}}"'
+        tail = '<rect id="zz" xy="300 300" wh="2"/>'
     if td["carrier"] == "attr":
         txt = "\\n".join(words)
-        doc = "<svg>" + sm.replace("{T}", f'{extra} text="{txt}"/>') + "</svg>"
+        doc = "<svg>" + sm.replace("{T}", f'{extra} text="{txt}"/>') + tail + "</svg>"
     else:
         doc = "<svg>" + sm.replace("{T}", f"{extra}>" + "\n".join(words) + f"</{kind}>") + "</svg>"
     outside = td["mode"] == "outside" or (td["mode"] == "default" and kind in ("line", "point", "text"))
